@@ -1,2 +1,3 @@
 pub mod seqexact;
 pub mod bitsprops;
+pub mod quadprops;
